@@ -4,6 +4,8 @@ import (
 	"fmt"
 	"os"
 	"path/filepath"
+	"regexp"
+	"strconv"
 	"strings"
 
 	"github.com/uber-go/gopatch/patch"
@@ -24,6 +26,28 @@ type C19Case struct {
 	ColMax  int    `json:"col_max"` // highest accepted column
 	Name    string `json:"name"`    // patch file name handed to the API
 	Mode    string `json:"mode"`    // api | cli-p | cli-stdin
+	// a second, independent fault in a later change (0 = none): every position the diagnostics name must be
+	// one of the two
+	Line2 int `json:"line2,omitempty"`
+	Col2  int `json:"col2,omitempty"`
+}
+
+var c19PosRe = regexp.MustCompile(`:(\d+):(\d+): `)
+
+// c19StrayPos returns a position named by the diagnostics that is neither fault's position.
+func c19StrayPos(c *C19Case, msg string) string {
+	if c.Line2 == 0 {
+		return ""
+	}
+	for _, m := range c19PosRe.FindAllStringSubmatch(msg, -1) {
+		l, _ := strconv.Atoi(m[1])
+		col, _ := strconv.Atoi(m[2])
+		if (l == c.Line && col >= c.Col && col <= c.ColMax) || (l == c.Line2 && col == c.Col2) {
+			continue
+		}
+		return m[1] + ":" + m[2]
+	}
+	return ""
 }
 
 const c19Target = "package a\n\nfunc f() {\n\tfoo(1)\n\ta()\n}\n"
@@ -227,6 +251,22 @@ func c19Gen(tier string, emit func(any)) {
 									lines = append(lines, validChange(k, named)...)
 								}
 								src := strings.Join(lines, "\n") + "\n"
+								if !f.header && len(pre)+len(mp) <= 1 && !named {
+									// the same patch with a second faulty change at the end
+									for ti, tail := range [][]string{{"@@", "var w foo", "@@", "-a(1)", "+b(1)"}, {"# d", "@ last @", "var v expression", "# c", "var u, u identifier", "@@", "-a(1)", "+b(1)"}} {
+										l2, c2 := len(lines)+2, 7
+										if ti == 1 {
+											l2, c2 = len(lines)+5, 8
+										}
+										src2 := strings.Join(append(append([]string{}, lines...), tail...), "\n") + "\n"
+										for _, mode := range []string{"api", "cli-p"} {
+											if mode != "api" && indent != 0 {
+												continue
+											}
+											emit(&C19Case{Patch: src2, Fault: f.kind, Change: at, Changes: nch + 1, Line: line, Col: col, ColMax: colMax, Name: "p.patch", Mode: mode, Line2: l2, Col2: c2})
+										}
+									}
+								}
 								for _, mode := range []string{"api", "cli-p", "cli-stdin"} {
 									if mode != "api" && indent != 0 {
 										continue
@@ -304,6 +344,9 @@ func c19Run(env *core.Env, ci any) core.Outcome {
 		if !hasPos(err.Error(), c.Name, c.Line, c.Col, c.ColMax) {
 			return bad("wrong-position/"+faultKind(c.Fault), "diagnostic does not point at %s:%d:%d (fault %s): %v", c.Name, c.Line, c.Col, c.Fault, err)
 		}
+		if p := c19StrayPos(c, err.Error()); p != "" {
+			return bad("stray-position/"+faultKind(c.Fault), "the patch has faults at %d:%d and %d:%d but a diagnostic names %s: %v", c.Line, c.Col, c.Line2, c.Col2, p, err)
+		}
 	default:
 		srv := env.Private["cli"].(*drive.Server)
 		root := filepath.Join(env.Scratch, "c19")
@@ -346,6 +389,9 @@ func c19Run(env *core.Env, ci any) core.Outcome {
 			}
 			if !hasPos(r.Stderr, shown, c.Line, c.Col, c.ColMax) {
 				return bad("wrong-position/"+faultKind(c.Fault), "stderr does not point at %s:%d:%d (fault %s): %q", shown, c.Line, c.Col, c.Fault, r.Stderr)
+			}
+			if p := c19StrayPos(c, r.Stderr); p != "" {
+				return bad("stray-position/"+faultKind(c.Fault), "the patch has faults at %d:%d and %d:%d but a diagnostic names %s: %q", c.Line, c.Col, c.Line2, c.Col2, p, r.Stderr)
 			}
 			return out
 		}
